@@ -74,8 +74,9 @@ def working_size(code, curt):
     return base + 16
 
 
-def memo_spec(uid, n, code, curt, size, src, signer, tseed, slack=0):
-    nbytes = ms.nbytes_for(n, code, curt, size, slack)
+def memo_spec(uid, n, code, curt, size, src, signer, tseed, slack=0, nbytes=None):
+    if nbytes is None:
+        nbytes = ms.nbytes_for(n, code, curt, size, slack)
     return {"uid": uid, "n": n, "nbytes": nbytes if nbytes is not None else 24, "tseed": tseed, "src": src,
             "signer": signer}
 
@@ -196,6 +197,20 @@ def cases(tier, seed, shard, nshards):
                                                    rng.randrange(1 << 30), slack=rng.randint(0, 2))],
                                "schedule": [[0, g] for g in ev]}
                     i += 1
+    # ---- 2b. short memos (1..12 bytes) at default, minimal and common gram sizes -------------------------
+    for code in ms.ZERO_CODES:
+        signed = code in ms.AUTH_ZERO
+        for curt in (False, True):
+            base = min_size(code, curt)
+            for size in (None, base, base + 5, base + 12, 548):
+                for nbytes in range(1, 13):
+                    if i % nshards == shard:
+                        yield {"kind": "short", "class": "inorder", "code": code, "curt": curt, "size": size,
+                               "rx_authic": signed, "api": "all", "batch": "end",
+                               "memos": [memo_spec(f"s{nbytes}", None, code, curt, size, "srcT",
+                                                   2 if signed else None, nbytes, nbytes=nbytes)],
+                               "schedule": None}
+                    i += 1
     # ---- 3. random schedules ------------------------------------------------------------------
     rng = random.Random(f"{seed}:C20:{shard}")
     nrand = (3200 if quick else 120000) // nshards
@@ -230,7 +245,10 @@ def cases(tier, seed, shard, nshards):
                 n = rng.randint(1, 12)
             if cls in ("missing", "partial-dup-after") and n == 1:
                 n = 2
-            memos.append(memo_spec(f"m{m}.{k}", n, code, curt, size, f"src{m}",
+            uid = f"m{m}.{k}"
+            while nm > 1 and (ms.nbytes_for(n, code, curt, size, 3) or 99) < len(uid) + 4:
+                n += 1                  # room for the unique tag, so that interleaved memo texts cannot coincide
+            memos.append(memo_spec(uid, n, code, curt, size, f"src{m}",
                                    rng.randrange(0, 6) if signed else None, rng.randrange(1 << 30),
                                    slack=rng.randint(0, 3)))
             sub = cls
@@ -253,17 +271,31 @@ def setup(ctx):
     ms.install_fake_uuid()
 
 
-def _tx_key(case, ex):
-    """Name the mechanism of a sender-side failure."""
+def _curt_skew(case, ml):
+    """Diagnosis label only (never decides): with binary headers this tree sizes the zeroth gram with the
+    binary overhead but the non-zeroth grams with the (larger) base64 overhead.  Returns which arithmetic
+    consequence of that applies to a memo of ml bytes, or None."""
     code, curt = case["code"], case["curt"]
+    if not curt:
+        return None
     try:
-        eff = Memoer(code=code, curt=curt, size=case["size"]).size
-        noz = sum(Memoer.Sizes[Memoer.Pairs[code]])
-        if curt and eff - noz <= 0:
-            # binary headers: the non-zeroth gram overhead is taken at its base64 size, leaving no room for a body
-            return "tx-refused:curt-gram-size-below-base64-overhead"
+        eff = Memoer(code=code, curt=True, size=case["size"]).size
+        zbz = eff - 3 * sum(Memoer.Sizes[code]) // 4
+        nbz = eff - sum(Memoer.Sizes[Memoer.Pairs[code]])
     except Exception:
-        pass
+        return None
+    if nbz <= 0:
+        return "gram-size-below-base64-overhead"
+    if ml + nbz - zbz <= 0:
+        return "short-memo-gram-count-not-positive"
+    return None
+
+
+def _tx_key(case, ex, ml):
+    """Name the mechanism of a sender-side failure."""
+    skew = _curt_skew(case, ml)
+    if skew:
+        return "curt-sizing:" + skew
     return ms.escape_key(ex, "tx-escape")
 
 
@@ -293,7 +325,7 @@ def run_case(case, ctx):
             gs, tx = ms.render(text, code, curt, size, m["signer"] if signed else None, dst="rx")
         except Exception as ex:
             ctx.count("tx_failures")
-            ctx.violation(_tx_key(case, ex),
+            ctx.violation(_tx_key(case, ex, len(text.encode())),
                           f"sender could not segment a {len(text.encode())}-byte memo with code={code} curt={curt} "
                           f"size={size} (effective {Memoer(code=code, curt=curt, size=size).size}): {ex!r}")
             return
@@ -303,12 +335,11 @@ def run_case(case, ctx):
         grams.append(gs)
         vids.append(ms.signer(m["signer"])[0] if signed else None)
         ctx.count("grams_rendered", len(gs))
-        if len(gs) != m["n"]:
+        if m["n"] is not None and len(gs) != m["n"]:
             ctx.count("gram_count_differs_from_plan")
-            ctx.sample({"gram_count_differs": [code, curt, size, m, len(gs)]})
         # observation: multi-byte characters cut by a gram border
-        lay = ms.layout(code, curt, size)
-        if lay[0] != "fail" and len(gs) > 1:
+        lay = ms.layout(code, curt, size) if len(gs) > 1 else ("fail",)
+        if lay[0] != "fail":
             raw = text.encode()
             pos = lay[0]
             while pos < len(raw):
@@ -325,7 +356,10 @@ def run_case(case, ctx):
     fed_after_complete = [None for _ in memos]  # grams handed over again after every gram had been handed over once
     seen_counts = [0 for _ in memos]
     batch = 1 if case["batch"] == "each" else case["batch"]
-    events = [(mi, gi) for mi, gi in case["schedule"] if mi < len(grams) and gi < len(grams[mi])]
+    if case["schedule"] is None:    # plain in-order delivery of whatever the sender produced
+        events = [(0, g) for g in range(len(grams[0]))]
+    else:
+        events = [(mi, gi) for mi, gi in case["schedule"] if mi < len(grams) and gi < len(grams[mi])]
     nontrivial = events != [(0, g) for g in range(len(grams[0]))] or len(memos) > 1
     dup_before = dup_after = 0
     trace = []
@@ -342,6 +376,13 @@ def run_case(case, ctx):
                 ctx.violation("malformed-delivery", f"delivered entry is not (memo, src, vid): {entry!r}", trace=trace)
                 return False
             if text not in texts:
+                skews = [k for k in (_curt_skew(case, len(t.encode())) for t in texts) if k]
+                if text == "" and skews:
+                    ctx.violation("curt-sizing:" + skews[0],
+                                  f"receiver delivered an EMPTY memo for a {len(texts[0].encode())}-byte memo "
+                                  f"(code={code} curt={curt} size={size}): zeroth gram announces a gram count of 0",
+                                  trace=trace)
+                    return False
                 kind = "other"
                 for t, gs in zip(texts, grams):
                     if sorted(text.encode()) == sorted(t.encode()) and text != t:
